@@ -13,7 +13,7 @@ import (
 func init() {
 	vfRegister(&vfProp{
 		id:       "C14",
-		classes:  []string{"os", "os-alloc", "rs", "rs-alloc", "rs-park", "rs-park", "os-halfclose", "rs-halfclose", "os-stale", "rs-stale", "rs-wfail", "os-replyfail", "rs-replyfail"},
+		classes:  []string{"os", "os-alloc", "rs", "rs-alloc", "rs-park", "rs-park", "os-halfclose", "rs-halfclose", "os-stale", "rs-stale", "rs-wfail", "os-replyfail", "rs-replyfail", "os-stall", "rs-stall"},
 		gen:      c14Gen,
 		exec:     c14Exec,
 		valid:    c14Valid,
@@ -58,6 +58,14 @@ func c14Gen(class string, seed uint64, tier string) *vfScenario {
 		sc.Cfg["parkdata"] = int64(rng.IntN(2)) * sc.Cfg["kind"]
 		sc.Cfg["alloc"] = int64(rng.IntN(2))
 		sc.Faults = []vfFault{{K: "s2cwr", At: int64(2 + rng.IntN(14))}}
+	case "os-stall", "rs-stall":
+		// the peer is slow to take replies: a reply write stalls (holding the controller) while the burst and its CLOSE
+		// arrive. Small bursts only (see C02's stall classes for why).
+		sc.Cfg["kind"] = int64(map[string]int{"os-stall": 0, "rs-stall": 1}[class])
+		sc.Cfg["parkdata"] = sc.Cfg["kind"]
+		sc.Cfg["alloc"] = int64(rng.IntN(2))
+		sc.Cfg["small"] = 1
+		sc.Faults = []vfFault{{K: "stall", At: int64(2 + rng.IntN(6)), A: int64(1 + rng.IntN(3))}}
 	case "rs-wfail":
 		// the handler fails one WriteAt of the burst: everything else must go on as usual
 		sc.Cfg["kind"] = 1
@@ -77,6 +85,14 @@ func c14Gen(class string, seed uint64, tier string) *vfScenario {
 	slot := 0
 	nextOff := map[int]int{} // per file index: next free write region
 	rounds := 1 + rng.IntN(3)
+	small := sc.Cfg["small"] != 0
+	if small {
+		nh, rounds = 1, 1
+	}
+	if rng.IntN(4) == 0 {
+		sc.Cfg["dupids"] = int64(2 + rng.IntN(2)) // some requests repeat the id of the request before them
+	}
+	withCmds := rng.IntN(3) == 0 // commands (served by the other worker) in between the reads and writes
 	for round := 0; round < rounds; round++ {
 		var slots []int
 		var fidx []int
@@ -102,6 +118,9 @@ func c14Gen(class string, seed uint64, tier string) *vfScenario {
 		if stale {
 			depth = []int{16, 17, 18, 21, 25, 33}[rng.IntN(6)]
 		}
+		if small {
+			depth = 1 + rng.IntN(3)
+		}
 		for i := 0; i < depth; i++ {
 			k := rng.IntN(len(slots))
 			if stale {
@@ -123,6 +142,12 @@ func c14Gen(class string, seed uint64, tier string) *vfScenario {
 				size := c14Size(files[fi])
 				off := rng.IntN(size)
 				burst = append(burst, vfOp{K: "read", H: s, Off: int64(off), N: 1 + rng.IntN(size-off)})
+			}
+		}
+		if withCmds && !small {
+			for i, k := 0, 1+rng.IntN(3); i < k; i++ {
+				pos := rng.IntN(len(burst) + 1)
+				burst = append(burst[:pos:pos], append([]vfOp{{K: "stat", P: files[rng.IntN(len(files))]}}, burst[pos:]...)...)
 			}
 		}
 		// insert each handle's CLOSE after its last rw request, at a random later position
@@ -159,6 +184,9 @@ func c14Exec(r *vfRun) {
 		}
 		if f.K == "s2cwr" {
 			s.srv.s2c.wrFaultAt = int(f.At)
+		}
+		if f.K == "stall" {
+			s.srv.s2c.stallAt, s.srv.s2c.stallLen = int(f.At), int(f.A)
 		}
 	}
 	sim.run(nil)
